@@ -680,10 +680,15 @@ class PGPUID(ParentRef):
     @property
     def selfsig(self):
         """
-        This will be the most recent, self-signature of this User ID or Attribute. If there isn't one, this will be ``None``.
+        This will be the most recent self-certification of this User ID or Attribute. If there isn't one, this will be ``None``.
         """
         if self.parent is not None:
             for sig in reversed(self._signatures):
+                # only certifications carry key flags, preferences and key expiration;
+                # certification revocations and attestations made by the key itself do not
+                if sig.type not in {SignatureType.Generic_Cert, SignatureType.Persona_Cert,
+                                    SignatureType.Casual_Cert, SignatureType.Positive_Cert}:
+                    continue
                 if sig.signer_fingerprint:
                     if self.parent.fingerprint == sig.signer_fingerprint:
                         return sig
